@@ -2014,10 +2014,7 @@ fn setup_redirect_output_and_error_to(
         // N.B. `&>file` is subject to noclobber just like `>file`.
         file_options.create_new(true);
     } else {
-        file_options
-            .create(true)
-            .truncate(!append)
-            .append(append);
+        file_options.create(true).truncate(!append).append(append);
     }
 
     let stdout_file = shell
